@@ -63,7 +63,7 @@ impl AggregatorRunner {
     //@ rewrite /async fn/ => /fn/
     //@ rewrite /\.await/ => //
     //@ rewrite /StdResult<Option<OpenMessage>>/ => /Result<Option<OpenMessage>, StdError>/
-    //@ rewrite? /(?s)debug!\(.*?\);[ \t]*\n/ => //
+    //@ rewrite? /(?s)(?:slog::)?(?:debug|info|warn|trace|error)!\(.*?\);[ \t]*\n/ => //
     //@ rewrite? /\s*\.with_context\(\|\| "[^"]*"\)/ => //
     //@ spec ensures ret is Ok ==> expiry_marked(&self.dependencies.certifier_service, signed_entity_type)
     //@end
@@ -72,7 +72,7 @@ impl AggregatorRunner {
     //@ rewrite /async fn/ => /fn/
     //@ rewrite /\.await/ => //
     //@ rewrite /StdResult<Option<OpenMessage>>/ => /Result<Option<OpenMessage>, StdError>/
-    //@ rewrite? /(?s)debug!\(.*?\);[ \t]*\n/ => //
+    //@ rewrite? /(?s)(?:slog::)?(?:debug|info|warn|trace|error)!\(.*?\);[ \t]*\n/ => //
     //@ rewrite? /\s*\.with_context\(\|\| format!\("[^"]*"\)\)/ => //
     //@ spec ensures ret is Ok ==> ret->Ok_0 == stored_open_message(&self.dependencies.certifier_service, signed_entity_type)
     //@end
@@ -81,7 +81,7 @@ impl AggregatorRunner {
     //@ rewrite /async fn/ => /fn/
     //@ rewrite /\.await/ => //
     //@ rewrite /StdResult<ProtocolMessage>/ => /Result<ProtocolMessage, StdError>/
-    //@ rewrite? /(?s)debug!\(.*?\);[ \t]*\n/ => //
+    //@ rewrite? /(?s)(?:slog::)?(?:debug|info|warn|trace|error)!\(.*?\);[ \t]*\n/ => //
     //@ rewrite? /\s*\.with_context\(\|\| format!\("[^"]*"\)\)/ => //
     //@ spec ensures ret is Ok ==> ret->Ok_0 == message_for(&self.dependencies.signable_builder_service, *signed_entity_type)
     //@end
@@ -90,7 +90,7 @@ impl AggregatorRunner {
     //@ rewrite /async fn/ => /fn/
     //@ rewrite /\.await/ => //
     //@ rewrite /StdResult<OpenMessage>/ => /Result<OpenMessage, StdError>/
-    //@ rewrite? /(?s)debug!\(.*?\);[ \t]*\n/ => //
+    //@ rewrite? /(?s)(?:slog::)?(?:debug|info|warn|trace|error)!\(.*?\);[ \t]*\n/ => //
     //@ spec ensures ret is Ok ==> created_open_message(&self.dependencies.certifier_service, signed_entity_type, protocol_message, ret->Ok_0)
     //@end
 
@@ -98,7 +98,7 @@ impl AggregatorRunner {
     //@ rewrite /async fn/ => /fn/
     //@ rewrite /\.await/ => //
     //@ rewrite /StdResult<Option<OpenMessage>>/ => /Result<Option<OpenMessage>, StdError>/
-    //@ rewrite? /(?s)debug!\(.*?\);[ \t]*\n/ => //
+    //@ rewrite? /(?s)(?:slog::)?(?:debug|info|warn|trace|error)!\(.*?\);[ \t]*\n/ => //
     //@ rewrite? /\s*\.with_context\(\|\| format!\("[^"]*"(?:, \w+)?\)\)/ => //
     //@ rewrite /for signed_entity_type in signed_entity_types \{/ => /for signed_entity_type in it: signed_entity_types.iter() {/
     //@ rewrite /&signed_entity_type\b/ => /signed_entity_type/
